@@ -54,6 +54,11 @@ def gen_cases(tier):
             for rel in cs.RELS:
                 for lt in (True, False):
                     yield {"part": "inner", "spin": spin, "rel": rel, "log_trick": lt}
+        # two constraints of (possibly) different kinds on one model: the recorded constraints are kept per kind
+        for spin in (False, True):
+            for r1 in cs.RELS:
+                for r2 in cs.RELS:
+                    yield {"part": "twokinds", "spin": spin, "rels": [r1, r2]}
         # the weight applied through arithmetic: weight * (model that already carries constraints), in every operator form
         for spin in (False, True):
             for rel in cs.RELS:
@@ -222,6 +227,18 @@ def check(case, st):
             return H
         compare(st, case, "%s with the symbol as coefficient of the objective and of the %s-constraint polynomial (bounds given)" % (Model.__name__, rel),
                 build, "%s.%s|symbol-in-polynomial|log_trick=%s" % (Model.__name__, rel, lt))
+    elif part == "twokinds":
+        spin, (r1, r2) = case["spin"], case["rels"]
+        Model = qv.PCSO if spin else qv.PCBO
+        st.nontrivial += 1
+
+        def build(w):
+            H = Model({("a", "b"): 1, ("c",): -1})
+            getattr(H, "add_constraint_%s_zero" % r1)({("a",): 1, ("b",): 1, ("c",): -1}, lam=w)
+            getattr(H, "add_constraint_%s_zero" % r2)({("b",): 2, ("c",): 1, ("d",): -3, (): 1}, lam=w)
+            return H
+        compare(st, case, "%s with a %s- and a %s-constraint, both weighted by the symbol" % (Model.__name__, r1, r2), build,
+                "%s.%s+%s|two-constraints" % (Model.__name__, r1, r2))
     elif part == "scaled":
         spin, rel, form = case["spin"], case["rel"], case["form"]
         Model = qv.PCSO if spin else qv.PCBO
